@@ -1073,7 +1073,11 @@ DTDScanner::scanChildren(const DTDElementDecl& elemDecl, XMLBuffer& bufToUse, un
     //  We have to check for one up front, since it could be something like
     //  (((a)*)) etc...
     //
+    //  The root of the partial tree built so far is always owned by this
+    //  janitor, so that it is released on every error return and when a
+    //  PE reference, an end of input or an error handler throws.
     ContentSpecNode* curNode = 0;
+    Janitor<ContentSpecNode> janTree(0);
     while(fReaderMgr->skippedChar(chOpenParen))
     {
         // to check entity nesting
@@ -1120,6 +1124,7 @@ DTDScanner::scanChildren(const DTDElementDecl& elemDecl, XMLBuffer& bufToUse, un
         decl->getElementName()
         , fGrammarPoolMemoryManager
     );
+    janTree.reset(curNode);
 
     // Check for a PE ref here, but don't require spaces
     const bool gotSpaces = checkForPERef(false, true);
@@ -1129,14 +1134,10 @@ DTDScanner::scanChildren(const DTDElementDecl& elemDecl, XMLBuffer& bufToUse, un
     ContentSpecNode* tmpNode = makeRepNode(repCh, curNode, fGrammarPoolMemoryManager);
     if (tmpNode != curNode)
     {
+        janTree.orphan();
+        janTree.reset(tmpNode);
         if (gotSpaces)
-        {
-            if (fScanner->emitErrorWillThrowException(XMLErrs::UnexpectedWhitespace))
-            {
-                delete tmpNode;
-            }
             fScanner->emitError(XMLErrs::UnexpectedWhitespace);
-        }
         fReaderMgr->getNextChar();
         curNode = tmpNode;
     }
@@ -1158,8 +1159,7 @@ DTDScanner::scanChildren(const DTDElementDecl& elemDecl, XMLBuffer& bufToUse, un
         &&  (opCh != chPipe)
         &&  (opCh != chCloseParen))
         {
-            // Not a legal char, so delete our node and return failure
-            delete curNode;
+            // Not a legal char, so return failure (the janitor deletes our node)
             fScanner->emitError(XMLErrs::ExpectedSeqChoiceLeaf);
             return 0;
         }
@@ -1184,6 +1184,8 @@ DTDScanner::scanChildren(const DTDElementDecl& elemDecl, XMLBuffer& bufToUse, un
                 , true
                 , fGrammarPoolMemoryManager
             );
+            janTree.orphan();
+            janTree.reset(headNode);
             curNode = headNode;
         }
          else if (opCh == chPipe)
@@ -1198,6 +1200,8 @@ DTDScanner::scanChildren(const DTDElementDecl& elemDecl, XMLBuffer& bufToUse, un
                 , true
                 , fGrammarPoolMemoryManager
             );
+            janTree.orphan();
+            janTree.reset(headNode);
             curNode = headNode;
         }
          else
@@ -1262,24 +1266,12 @@ DTDScanner::scanChildren(const DTDElementDecl& elemDecl, XMLBuffer& bufToUse, un
                         const XMLSize_t curReader = fReaderMgr->getCurrentReaderNum();
 
                         // Recurse to handle this new guy
-                        ContentSpecNode* subNode;
-                        try {
-                            subNode = scanChildren(elemDecl, bufToUse, depth);
-                        }
-                        catch (...)
-                        {
-                            // not only the scanner's own XMLErrs::Codes: an
-                            // application error handler may throw anything
-                            delete headNode;
-                            throw;
-                        }
+                        ContentSpecNode* subNode = scanChildren(elemDecl, bufToUse, depth);
 
-                        // If it failed, we are done, clean up here and return failure
+                        // If it failed, we are done, return failure
                         if (!subNode)
-                        {
-                            delete headNode;
                             return 0;
-                        }
+                        Janitor<ContentSpecNode> janSub(subNode);
 
                         if (curReader != fReaderMgr->getCurrentReaderNum() && fScanner->getValidationScheme() == XMLScanner::Val_Always)
                             fScanner->getValidator()->emitError(XMLValid::PartialMarkupInPE);
@@ -1294,6 +1286,7 @@ DTDScanner::scanChildren(const DTDElementDecl& elemDecl, XMLBuffer& bufToUse, un
                             , true
                             , fGrammarPoolMemoryManager
                         );
+                        janSub.orphan();
                         curNode->setSecond(newCur);
                         lastNode = curNode;
                         curNode = newCur;
@@ -1306,7 +1299,6 @@ DTDScanner::scanChildren(const DTDElementDecl& elemDecl, XMLBuffer& bufToUse, un
                         //
                         if (!fReaderMgr->getName(bufToUse))
                         {
-                            delete headNode;
                             fScanner->emitError(XMLErrs::ExpectedElementName);
                             return 0;
                         }
@@ -1337,10 +1329,13 @@ DTDScanner::scanChildren(const DTDElementDecl& elemDecl, XMLBuffer& bufToUse, un
                             decl->getElementName()
                             , fGrammarPoolMemoryManager
                         );
+                        Janitor<ContentSpecNode> janLeaf(tmpLeaf);
 
                         // Check for a repetition character after the leaf
                         const XMLCh repCh = fReaderMgr->peekNextChar();
                         ContentSpecNode* tmpLeaf2 = makeRepNode(repCh, tmpLeaf, fGrammarPoolMemoryManager);
+                        janLeaf.orphan();
+                        janLeaf.reset(tmpLeaf2);
                         if (tmpLeaf != tmpLeaf2)
                             fReaderMgr->getNextChar();
 
@@ -1359,6 +1354,7 @@ DTDScanner::scanChildren(const DTDElementDecl& elemDecl, XMLBuffer& bufToUse, un
                             , true
                             , fGrammarPoolMemoryManager
                         );
+                        janLeaf.orphan();
                         curNode->setSecond(newCur);
                         lastNode = curNode;
                         curNode = newCur;
@@ -1366,8 +1362,7 @@ DTDScanner::scanChildren(const DTDElementDecl& elemDecl, XMLBuffer& bufToUse, un
                 }
                  else
                 {
-                    // Cannot be valid
-                    delete headNode;  // emitError may do a throw so need to clean-up first
+                    // Cannot be valid (the janitor cleans up, also if emitError throws)
                     if (opCh == chComma)
                     {
                         fScanner->emitError(XMLErrs::ExpectedChoiceOrCloseParen);
@@ -1392,6 +1387,8 @@ DTDScanner::scanChildren(const DTDElementDecl& elemDecl, XMLBuffer& bufToUse, un
         //
         const XMLCh repCh = fReaderMgr->peekNextChar();
         curNode = makeRepNode(repCh, headNode, fGrammarPoolMemoryManager);
+        janTree.orphan();
+        janTree.reset(curNode);
         if (curNode != headNode)
             fReaderMgr->getNextChar();
 
@@ -1416,6 +1413,7 @@ DTDScanner::scanChildren(const DTDElementDecl& elemDecl, XMLBuffer& bufToUse, un
         }
     }
 
+    janTree.orphan();
     return curNode;
 }
 
@@ -3282,6 +3280,11 @@ bool DTDScanner::scanMixed(DTDElementDecl& toFill)
     //
     ContentSpecNode* headNode = curNode;
 
+    //  The head node is owned by this janitor until it is handed to the
+    //  element decl, so that it is released on every error return and when a
+    //  PE reference, an end of input or an error handler throws.
+    Janitor<ContentSpecNode> janHead(headNode);
+
     // Remember the original node so we can sense the first choice node
     ContentSpecNode* orgNode = curNode;
 
@@ -3307,10 +3310,6 @@ bool DTDScanner::scanMixed(DTDElementDecl& toFill)
             //  Tell them they can't have reps in mixed model, but eat
             //  it and keep going if we are allowed to.
             //
-            if (fScanner->emitErrorWillThrowException(XMLErrs::NoRepInMixed))
-            {
-                delete headNode;
-            }
             fScanner->emitError(XMLErrs::NoRepInMixed);
         }
          else if (fReaderMgr->skippedSpace())
@@ -3325,7 +3324,6 @@ bool DTDScanner::scanMixed(DTDElementDecl& toFill)
                 // Has to be the closing paren now.
                 if (!fReaderMgr->skippedChar(chCloseParen))
                 {
-                    delete headNode;
                     fScanner->emitError(XMLErrs::UnterminatedContentModel, toFill.getElementName()->getLocalPart());                     
                     return false;
                 }
@@ -3337,10 +3335,6 @@ bool DTDScanner::scanMixed(DTDElementDecl& toFill)
 
                     if (starRequired)
                     {
-                        if (fScanner->emitErrorWillThrowException(XMLErrs::ExpectedAsterisk))
-                        {
-                            delete headNode;
-                        }
                         fScanner->emitError(XMLErrs::ExpectedAsterisk);
                     }
                 }
@@ -3362,6 +3356,7 @@ bool DTDScanner::scanMixed(DTDElementDecl& toFill)
                 }
 
                 // Store the head node as the content spec of the element.
+                janHead.orphan();
                 toFill.setContentSpec(headNode);
                 break;
             }
@@ -3375,7 +3370,6 @@ bool DTDScanner::scanMixed(DTDElementDecl& toFill)
             // Get a name token
             if (!fReaderMgr->getName(nameBuf))
             {
-                delete headNode;
                 fScanner->emitError(XMLErrs::ExpectedElementName);
                 return false;
             }
@@ -3427,6 +3421,8 @@ bool DTDScanner::scanMixed(DTDElementDecl& toFill)
 
                 // Remember the top node
                 headNode = curNode;
+                janHead.orphan();
+                janHead.reset(headNode);
             }
              else
             {
